@@ -63,6 +63,7 @@ type valSpec struct {
 	addr   string
 	power  int64
 	bonded bool
+	gone   bool              // removed from the staking module altogether (not on the staking line)
 	orch   map[string]string // chain -> orchestrator hex
 	eth    map[string]string // chain -> external address
 }
@@ -160,6 +161,9 @@ func (g *Gen) amountFor(dec uint64) *big.Int {
 func (g *Gen) stakingLine() string {
 	var parts []string
 	for _, v := range g.vals {
+		if v.gone {
+			continue
+		}
 		b := "u"
 		if v.bonded {
 			b = "b"
@@ -1199,7 +1203,41 @@ func (g *Gen) runVotes(nops int) {
 				}
 				break
 			}
-		case x < 86:
+		case x < 86 && x >= 84:
+			// a validator with a claim still pending leaves the staking module altogether (delegations withdrawn, unbonding
+			// complete: the validator object is removed), is created again under the same operator address, bonds, and
+			// submits its pending claims again: its earlier vote is on record, none of this may be counted a second time
+			chain := g.pick([]string{"ethereum", "minter"})
+			lo := g.env.k.GetLastObservedEventNonce(g.env.ctx, types.ChainID(chain))
+			for vi, v := range g.vals {
+				last, ok := voted[chain+"/"+v.addr]
+				if !ok || !v.bonded || v.gone || last <= lo || nBonded(g.vals) < 2 {
+					continue
+				}
+				g.stats["votes:validator-removed-and-created-again-with-a-claim-pending"]++
+				for round := 0; round < 1+r.Intn(3); round++ {
+					g.vals[vi].gone = true
+					g.do(g.stakingLine())
+					if r.Intn(2) == 0 {
+						g.do("end")
+						votesDumps()
+						g.height++
+						g.time += 5
+						g.do(fmt.Sprintf("block %d %d", g.height, g.time))
+						g.do("begin")
+					}
+					g.vals[vi].gone = false
+					g.vals[vi].bonded = true
+					g.do(g.stakingLine())
+					for n := lo + 1; n <= last; n++ {
+						for _, e := range cand[fmt.Sprintf("%s/%d", chain, n)] {
+							g.do(fmt.Sprintf("vote %s %s %s", chain, v.addr, e))
+						}
+					}
+				}
+				break
+			}
+		case x < 84:
 			// a validator that joined late (an event was applied without its vote) re-submits that applied claim and
 			// then its own latest claims again: none of this may be counted
 			chain := g.pick([]string{"ethereum", "minter"})
